@@ -417,7 +417,13 @@ func unmarshalStructWithMap[T any](data []byte, v *T, mapField string) error {
 		}
 		var x any
 		if err := json.Unmarshal(val, &x); err != nil {
-			return err
+			// val is valid JSON, so it holds a number outside the range of float64.
+			// Unknown keywords may have any JSON value: keep the numbers as json.Number.
+			dec := json.NewDecoder(bytes.NewReader(val))
+			dec.UseNumber()
+			if err := dec.Decode(&x); err != nil {
+				return err
+			}
 		}
 		m[k] = x
 	}
